@@ -2,56 +2,26 @@
    Only statements; each is closed by [exact] of a lemma in Proof/Vesting*.v.
 
    The model (Model/Vesting.v) takes the function that computes the share of a period as a
-   parameter; [vs_share_f64] is the code's (currency.MultFloat64 on float64, bit for bit on
-   Coq.Floats.SpecFloat), [vs_share_exact] the same share in integers.
-   For the code as it is, the full statement is false:
-     - at expiry the whole remainder is paid as Coin(float64(left) * 1.0); for a remainder above
-       2^53 whose float64 rounds up this is more than the remainder (C16_amount_refuted), after
-       which left()/excess() fail for ever: the owner can neither withdraw nor delete, and a pool
-       without excess can never pay at all (C16_owner_locked_out_witness);
-     - inside the period the float64 product can exceed the exact share by a rounding step
-       (C16_schedule_refuted).
-   It is proved for the code for all amounts below 2^53 except the schedule clause
-   (C16_*_partial, using Flocq for the float facts), and in full, schedule included, for every
-   share function that pays the remainder at the end and never more than the exact share before
-   (C16_*_exact_share: what the contract computes once the share is taken in integers). *)
-From ZC Require Import Model.Vesting Proof.Vesting Proof.VestingWitness Proof.VestingF64.
+   parameter. [vs_share_int] is what destination.unlock computes (the whole remainder at the end,
+   else left * period / full in integers, rounded down); the theorems below are about it, for all
+   amounts up to 2^64 and all histories. [vs_share_f64] is what the code computed before commit
+   f517460 of /repo; the last section records, as history, the inputs on which that version
+   overpaid (oracle signatures C16:float64-rounding-of-remainder-at-expiry and
+   C16:ahead-of-schedule-by-float64-rounding, which must not fire any more). *)
+From ZC Require Import Model.Vesting Proof.Vesting Proof.VestingWitness.
 Open Scope Z_scope.
 
-Definition C16_full_statement : Prop := vs_full_statement vs_share_f64.
-
-Theorem C16_amount_refuted :
-  ~ (forall conf ops, Forall (vs_op_wf vs_two64) ops -> vs_st_inv vs_two64 (fst (vs_run vs_share_f64 conf None ops))).
-Proof. exact vw_refuted_amount. Qed.
-Print Assumptions C16_amount_refuted.
-
-Theorem C16_schedule_refuted :
-  ~ (forall conf ops, Forall (vs_op_wf vs_two64) ops -> vs_st_sched (fst (vs_run vs_share_f64 conf None ops))).
-Proof. exact vw_refuted_schedule. Qed.
-Print Assumptions C16_schedule_refuted.
-
-Theorem C16_full_statement_refuted : ~ C16_full_statement.
-Proof. exact vw_refuted. Qed.
-Print Assumptions C16_full_statement_refuted.
-
-(* amount 2^53+3: with 10 tokens of excess the destination is paid amount+1 and both the owner's
-   withdrawal and delete fail; with no excess every later request fails *)
-Theorem C16_owner_locked_out_witness :
-  snd (vs_run vs_share_f64 vw_conf None vw_ops_excess) =
-    [VsOk [(0, vs_contract, vw_amount + 10)]; VsOk [(vs_contract, 1, vw_amount + 1)]; VsFail; VsFail] /\
-  snd (vs_run vs_share_f64 vw_conf None vw_ops_exact) =
-    [VsOk [(0, vs_contract, vw_amount)]; VsFail; VsFail; VsFail; VsFail].
-Proof. exact vw_owner_locked_out. Qed.
-Print Assumptions C16_owner_locked_out_witness.
-
-(* ---- the code (float64 share), every history whose amounts are below 2^53 ----
-   vs_st_inv: for every destination 0 <= vested <= amount and start <= last transfer <= expiry;
-   the pool balance is at least the sum of the unvested remainders. *)
-Theorem C16_vested_le_amount_and_pool_covers_partial :
-  forall conf ops, Forall (vs_op_wf (2 ^ 53)) ops ->
-    vs_st_inv (2 ^ 53) (fst (vs_run vs_share_f64 conf None ops)).
-Proof. exact vs_f64_run_inv. Qed.
-Print Assumptions C16_vested_le_amount_and_pool_covers_partial.
+(* After any history (requests in the ranges of vs_op_wf: coins uint64, timestamps in [0, 2^61]):
+   - vs_st_inv: for every destination 0 <= vested <= amount and start <= last transfer <= expiry;
+     the pool balance is at least the sum of the unvested remainders;
+   - vs_st_sched: never ahead of the linear schedule: vested * (expiry - start) <=
+     amount * (time of the last transfer - start), hence at every later time as well. *)
+Theorem C16_vested_within_amount_on_schedule_and_pool_covers_remainder :
+  forall conf ops, Forall (vs_op_wf vs_two64) ops ->
+    vs_st_inv vs_two64 (fst (vs_run vs_share_int conf None ops)) /\
+    vs_st_sched (fst (vs_run vs_share_int conf None ops)).
+Proof. exact vs_exact_full. Qed.
+Print Assumptions C16_vested_within_amount_on_schedule_and_pool_covers_remainder.
 
 (* vested never decreases: every request, every share function, no side condition *)
 Theorem C16_vested_monotone :
@@ -60,63 +30,67 @@ Theorem C16_vested_monotone :
 Proof. exact vs_step_mono. Qed.
 Print Assumptions C16_vested_monotone.
 
-(* by expiry a destination can receive exactly its amount *)
-Theorem C16_exact_at_expiry_partial :
-  forall conf p c now d, vs_inv (2 ^ 53) p ->
-    c <> vp_owner p -> vp_expire p <= now -> vs_find c (vp_dests p) = Some d -> 0 < vs_rem d ->
-    exists p' d', vs_step vs_share_f64 conf (Some p) (VsUnlock c now) = (Some p', VsOk [(vs_contract, c, vs_rem d)]) /\
-      vs_find c (vp_dests p') = Some d' /\ vd_vested d' = vd_amount d' /\ vd_amount d' = vd_amount d /\
-      vp_balance p' = vp_balance p - vs_rem d.
-Proof. exact vs_f64_exact_at_expiry. Qed.
-Print Assumptions C16_exact_at_expiry_partial.
-
-(* the owner can always withdraw the excess: the request is refused only when there is none *)
-Theorem C16_owner_withdraws_excess_partial :
-  forall conf p now, vs_inv (2 ^ 53) p ->
-    let excess := vp_balance p - vs_rem_sum (vp_dests p) in
-    vs_step vs_share_f64 conf (Some p) (VsUnlock (vp_owner p) now) =
-    if excess =? 0 then (Some p, VsFail)
-    else (Some (vs_set_balance p (vs_rem_sum (vp_dests p))), VsOk [(vs_contract, vp_owner p, excess)]).
-Proof. exact vs_f64_owner_unlock. Qed.
-Print Assumptions C16_owner_withdraws_excess_partial.
-
-(* ... and delete the pool, as soon as the clock is not behind the last transfer: everything the
-   pool holds is paid out and the pool is gone *)
-Theorem C16_owner_deletes_pool_partial :
-  forall conf p now, vs_inv (2 ^ 53) p ->
-    Forall (fun d => vd_move d <= vs_clamp p now) (vp_dests p) ->
-    exists tr, vs_step vs_share_f64 conf (Some p) (VsDelete (vp_owner p) now) = (None, VsOk tr) /\
-               vs_tr_sum tr = vp_balance p.
-Proof. exact vs_f64_delete. Qed.
-Print Assumptions C16_owner_deletes_pool_partial.
-
-(* ---- the full statement, for the share taken in integers, all amounts up to 2^64 ---- *)
-Theorem C16_full_statement_exact_share : vs_full_statement vs_share_exact.
-Proof. exact vs_exact_full. Qed.
-Print Assumptions C16_full_statement_exact_share.
-
-Theorem C16_owner_and_destination_rights_exact_share :
+(* In every pool satisfying the invariant (hence every reachable one):
+   - the owner can delete it as soon as the clock is not behind the last transfer: the request
+     succeeds, everything the pool holds is paid out and the pool is gone;
+   - by expiry a destination can receive exactly its amount: its unlock at/after expiry succeeds,
+     pays exactly the remainder and leaves vested = amount;
+   - the owner can always withdraw the excess: refused only when there is none, and then exactly
+     balance - remainders is paid. *)
+Theorem C16_owner_and_destination_rights :
   (forall conf p now, vs_inv vs_two64 p ->
      Forall (fun d => vd_move d <= vs_clamp p now) (vp_dests p) ->
-     exists tr, vs_step vs_share_exact conf (Some p) (VsDelete (vp_owner p) now) = (None, VsOk tr) /\
+     exists tr, vs_step vs_share_int conf (Some p) (VsDelete (vp_owner p) now) = (None, VsOk tr) /\
                 vs_tr_sum tr = vp_balance p) /\
   (forall conf p c now d, vs_inv vs_two64 p ->
      c <> vp_owner p -> vp_expire p <= now -> vs_find c (vp_dests p) = Some d -> 0 < vs_rem d ->
-     exists p' d', vs_step vs_share_exact conf (Some p) (VsUnlock c now) = (Some p', VsOk [(vs_contract, c, vs_rem d)]) /\
+     exists p' d', vs_step vs_share_int conf (Some p) (VsUnlock c now) = (Some p', VsOk [(vs_contract, c, vs_rem d)]) /\
        vs_find c (vp_dests p') = Some d' /\ vd_vested d' = vd_amount d' /\ vd_amount d' = vd_amount d /\
        vp_balance p' = vp_balance p - vs_rem d) /\
   (forall conf p now, vs_inv vs_two64 p ->
      let excess := vp_balance p - vs_rem_sum (vp_dests p) in
-     vs_step vs_share_exact conf (Some p) (VsUnlock (vp_owner p) now) =
+     vs_step vs_share_int conf (Some p) (VsUnlock (vp_owner p) now) =
      if excess =? 0 then (Some p, VsFail)
      else (Some (vs_set_balance p (vs_rem_sum (vp_dests p))), VsOk [(vs_contract, vp_owner p, excess)])).
 Proof. exact vs_exact_rights. Qed.
-Print Assumptions C16_owner_and_destination_rights_exact_share.
+Print Assumptions C16_owner_and_destination_rights.
+
+(* the owner's trigger is never refused on a pool with tokens and destinations (same clock condition) *)
+Theorem C16_owner_trigger_not_refused :
+  forall conf p now, vs_inv vs_two64 p -> vp_dests p <> [] -> 0 < vp_balance p ->
+    Forall (fun d => vd_move d <= vs_clamp p now) (vp_dests p) ->
+    exists p' tr, vs_step vs_share_int conf (Some p) (VsTrigger (vp_owner p) now) = (Some p', VsOk tr) /\
+                  vp_balance p' = vp_balance p - vs_tr_sum tr.
+Proof. exact vs_exact_trigger. Qed.
+Print Assumptions C16_owner_trigger_not_refused.
+
+(* ---- history: the float64 share used before f517460 ----
+   amount 2^53+3: with 10 tokens of excess the destination was paid amount+1 and the owner's
+   withdrawal and delete failed; with no excess every later request failed *)
+Theorem C16_history_float64_share_overpaid_at_expiry :
+  snd (vs_run vs_share_f64 vw_conf None vw_ops_excess) =
+    [VsOk [(0, vs_contract, vw_amount + 10)]; VsOk [(vs_contract, 1, vw_amount + 1)]; VsFail; VsFail] /\
+  snd (vs_run vs_share_f64 vw_conf None vw_ops_exact) =
+    [VsOk [(0, vs_contract, vw_amount)]; VsFail; VsFail; VsFail; VsFail].
+Proof. exact vw_owner_locked_out. Qed.
+Print Assumptions C16_history_float64_share_overpaid_at_expiry.
+
+(* ... and the same requests on the integer share *)
+Example C16_former_witnesses_now :
+  snd (vs_run vs_share_int vw_conf None vw_ops_excess) =
+    [VsOk [(0, vs_contract, vw_amount + 10)]; VsOk [(vs_contract, 1, vw_amount)]; VsOk [(vs_contract, 0, 10)]; VsOk []] /\
+  snd (vs_run vs_share_int vw_conf None vw_ops_exact) =
+    [VsOk [(0, vs_contract, vw_amount)]; VsOk [(vs_contract, 1, vw_amount)]; VsFail; VsOk []; VsFail] /\
+  match fst (vs_run vs_share_int vw_conf_long None vw_ops_sched) with
+  | Some p => map vd_vested (vp_dests p) = [509978926160]
+  | None => False
+  end.
+Proof. vm_compute. repeat split; reflexivity. Qed.
 
 (* Non-vacuity: a pool with two destinations through unlock, trigger, owner withdrawal, stop,
-   expiry and delete, on the code's float64 share; every state met satisfies the hypotheses above *)
+   expiry and delete; every state met satisfies the hypotheses above *)
 Example C16_example :
-  snd (vs_run vs_share_f64 vw_conf None
+  snd (vs_run vs_share_int vw_conf None
     [VsAdd 0 1000 1000 (Some 1000) 1000 (100 * vs_second) [(1, 300); (2, 600)];
      VsUnlock 1 1010; VsTrigger 0 1033; VsUnlock 0 1034; VsStop 0 1050 2; VsUnlock 0 1051;
      VsUnlock 1 1100; VsUnlock 1 1101; VsDelete 0 1200])
